@@ -50,21 +50,22 @@ class FakeFS:
         return dirs, files
 
     def walk(self, top):
+        """os.walk contract: roots are the given `top` string extended by the names walked (NOT normalised), top-down, honouring in-place pruning of dirs."""
         top = str(top)
-        if not self.is_dir(top):
+        if not self.is_dir(posixpath.normpath(top)):
             return
         stack = [top]
         while stack:
             d = stack.pop(0)
-            dirs, files = self.listdir(d)
+            dirs, files = self.listdir(posixpath.normpath(d))
             self.log.append(("walk", d))
             yield d, dirs, files
-            # top-down with pruning: only the names still in `dirs` are visited (depth-first, in listing order)
+            # only the names still in `dirs` are visited (depth-first, in listing order)
             stack = [posixpath.join(d, x) for x in dirs] + stack
 
     # ---- content
     def read(self, p, encoding=None, binary=False):
-        p = str(p)
+        p = self.abspath(p)
         self.log.append(("read", p))
         if p not in self.files:
             raise FileNotFoundError(p)
@@ -167,10 +168,14 @@ class FakeOS:
         self.sep = "/"
 
     def walk(self, top):
-        return self._fs.walk(normalize(str(top)))
+        return self._fs.walk(str(top))
 
     def getcwd(self):
         return self._fs.cwd
+
+    def relpath(self, path, start="."):
+        """os.path.relpath against the FAKE working directory (the real one would leak into root-relative keys)."""
+        return posixpath.relpath(self._fs.abspath(path), self._fs.abspath(start))
 
     def getenv(self, *a):
         return os.getenv(*a)
